@@ -122,60 +122,78 @@ Definition is_nil {A} (l : list A) : bool := match l with [] => true | _ => fals
      datetime / timedelta / the bare scalar, which cannot carry them), a Timestamp / Duration that
      datetime / timedelta cannot hold exactly (range, sub-microsecond nanos, non-normalised pairs);
    - a varint wider than 32 bits on a uint32 / sint32 field ([narrow_ok]). *)
+Definition is_plain (a : aval) : bool :=
+  match a with AInt _ | ABool _ | AFloat _ | AStr _ | ABytes _ => true | _ => false end.
+
+Section Sup.
+  Variable sc : schema.
+  Variable nested : nat -> list byte -> option aval.      (* denotation of a nested payload *)
+  Variable nested_ok : nat -> list byte -> bool.          (* the nested payload is itself supported *)
+
+  Definition exact_ok (f : fdesc) (c' : nat) (b : list byte) : bool :=
+    match elem_hint (fhint f), fwraps f with
+    | PyDatetime, _ =>
+        match nested c' b with
+        | Some (AMsg [AInt s; AInt nn] []) => ts_exact s nn
+        | Some _ => false
+        | None => true
+        end
+    | PyTimedelta, _ =>
+        match nested c' b with
+        | Some (AMsg [AInt s; AInt nn] []) => dur_exact s nn
+        | Some _ => false
+        | None => true
+        end
+    | _, Some _ =>
+        match nested c' b with
+        | Some (AMsg [a] []) => is_plain a          (* the wrapper's one scalar field, no unknown fields *)
+        | Some _ => false
+        | None => true
+        end
+    | _, None => true
+    end.
+
+  (* one record, given the payloads gathered so far *)
+  Definition record_ok (fs : list fdesc) (acc : list (list payload) * list record) (r : record) : bool :=
+    match find_field fs (fst r) with
+    | Some (i, f) =>
+        if fits f (snd r) then
+          narrow_ok f (snd r) &&
+          match card_of f with
+          | MapOf => entry_clean sc f (snd r) && nested_ok (fentry f) (len_bytes (snd r))
+          | cd =>
+              match msg_class f with
+              | Some c' =>
+                  nested_ok c' (len_bytes (snd r)) && exact_ok f c' (len_bytes (snd r)) &&
+                  match cd with
+                  | Explicit | Oneof _ => is_nil (nth i (fst acc) [])
+                  | _ => true
+                  end
+              | None => true
+              end
+          end
+        else true
+    | None => true
+    end.
+
+  Fixpoint records_ok (fs : list fdesc) (acc : list (list payload) * list record) (rs : list record) : bool :=
+    match rs with
+    | [] => true
+    | r :: rs' => record_ok fs acc r && records_ok fs (gather_step sc fs acc r) rs'
+    end.
+End Sup.
+
+Definition nested_sem (n : nat) (sc : schema) (c' : nat) (b : list byte) : option aval :=
+  let? rs' := parse_wire b in sem n sc c' rs'.
+
 Fixpoint supported (n : nat) (sc : schema) (c : nat) (rs : list record) : bool :=
   match n with
   | O => false
   | S n' =>
       let fs := cfields (get_class sc c) in
-      let nested_ok (c' : nat) (b : list byte) : bool :=
-        match parse_wire b with Some rs' => supported n' sc c' rs' | None => true end in
-      let exact_ok (f : fdesc) (c' : nat) (b : list byte) : bool :=
-        match elem_hint (fhint f), fwraps f with
-        | PyDatetime, _ =>
-            match (let? rs' := parse_wire b in sem n' sc c' rs') with
-            | Some (AMsg [AInt s; AInt nn] []) => ts_exact s nn
-            | Some _ => false
-            | None => true
-            end
-        | PyTimedelta, _ =>
-            match (let? rs' := parse_wire b in sem n' sc c' rs') with
-            | Some (AMsg [AInt s; AInt nn] []) => dur_exact s nn
-            | Some _ => false
-            | None => true
-            end
-        | _, Some _ =>
-            match (let? rs' := parse_wire b in sem n' sc c' rs') with
-            | Some (AMsg _ []) => true
-            | Some _ => false
-            | None => true
-            end
-        | _, None => true
-        end in
-      (fix go (acc : list (list payload) * list record) (rs : list record) {struct rs} : bool :=
-         match rs with
-         | [] => true
-         | (num, p) :: rs' =>
-             (match find_field fs num with
-              | Some (i, f) =>
-                  if fits f p then
-                    narrow_ok f p &&
-                    match card_of f with
-                    | MapOf => entry_clean sc f p && nested_ok (fentry f) (len_bytes p)
-                    | cd =>
-                        match msg_class f with
-                        | Some c' =>
-                            nested_ok c' (len_bytes p) && exact_ok f c' (len_bytes p) &&
-                            match cd with
-                            | Explicit | Oneof _ => is_nil (nth i (fst acc) [])
-                            | _ => true
-                            end
-                        | None => true
-                        end
-                    end
-                  else true
-              | None => true
-              end) && go (gather_step sc fs acc (num, p)) rs'
-         end) (map (fun _ => []) fs, []) rs
+      records_ok sc (nested_sem n' sc)
+                 (fun c' b => match parse_wire b with Some rs' => supported n' sc c' rs' | None => true end)
+                 fs (map (fun _ => []) fs, []) rs
   end.
 
 (* ------------------------------------------------------------------ printers (correspondence) *)
@@ -309,3 +327,11 @@ Fixpoint enc_faithful_pv (sc : schema) (v : pv) {struct v} : bool :=
 
 Definition enc_faithful (sc : schema) (o : obj) : bool :=
   Model.WellFormed.in_range sc o && enc_faithful_pv sc (PMsg o).
+
+(* the bundled Timestamp / Duration classes have two plain integer fields (they are betterproto's own
+   classes; msggen prints every schema as `builtin_classes ++ ...`, so this holds by construction) *)
+Definition builtins_std (sc : schema) : bool :=
+  match empty_msg sc timestamp_cls, empty_msg sc duration_cls with
+  | AMsg [AInt 0; AInt 0] [], AMsg [AInt 0; AInt 0] [] => true
+  | _, _ => false
+  end.
